@@ -41,6 +41,7 @@ func pointFrom(r *rand.Rand) *ed.Point {
 
 type job struct {
 	s, a, b *ed.Scalar
+	p       *ed.Point // this goroutine's own variable base (half of the goroutines share one, the others differ)
 }
 
 // shared read-only values in the representations where an in-place "optimisation" of a reader would show:
@@ -48,6 +49,9 @@ type job struct {
 type shared struct {
 	R        *ed.Point        // A + Q, Z != 1
 	u, v, nc *field.Element   // u, v after additions (unreduced limbs); nc = non-canonical encoding of 1
+	s, t     *ed.Scalar
+	enc      []byte           // a valid point encoding
+	wide     []byte           // 64 uniform bytes
 }
 
 // fieldWork: every reader / binary operation of the field and point layers with SHARED operands and PRIVATE receivers
@@ -72,6 +76,27 @@ func fieldWork(sh *shared, iters int) []byte {
 		out = append(out, new(ed.Point).Negate(sh.R).Bytes()...)
 		out = append(out, new(ed.Point).MultByCofactor(sh.R).Bytes()...)
 		out = append(out, new(ed.Point).Subtract(sh.R, sh.R).Bytes()...)
+		// scalar layer and decoders with shared operands, private receivers
+		out = append(out, ed.NewScalar().Invert(sh.s).Bytes()...)
+		out = append(out, ed.NewScalar().Multiply(sh.s, sh.t).Bytes()...)
+		out = append(out, ed.NewScalar().Add(sh.s, sh.t).Bytes()...)
+		out = append(out, ed.NewScalar().Subtract(sh.s, sh.t).Bytes()...)
+		out = append(out, ed.NewScalar().Negate(sh.t).Bytes()...)
+		out = append(out, byte(sh.s.Equal(sh.t)))
+		if x, err := ed.NewScalar().SetUniformBytes(sh.wide); err == nil {
+			out = append(out, x.Bytes()...)
+		}
+		if x, err := ed.NewScalar().SetBytesWithClamping(sh.enc); err == nil {
+			out = append(out, x.Bytes()...)
+		}
+		if p, err := new(ed.Point).SetBytes(sh.enc); err == nil {
+			out = append(out, p.Bytes()...)
+			out = append(out, byte(p.Equal(sh.R)))
+		} else {
+			out = append(out, 0xEF)
+		}
+		out = append(out, new(ed.Point).ScalarMult(sh.s, sh.R).Bytes()...)
+		out = append(out, new(ed.Point).Add(sh.R, sh.R).Bytes()...)
 	}
 	return out
 }
@@ -80,6 +105,13 @@ func work(j job, A, Q *ed.Point, xs []*ed.Scalar, ps []*ed.Point) []byte {
 	var out []byte
 	out = append(out, new(ed.Point).ScalarBaseMult(j.s).Bytes()...)
 	out = append(out, new(ed.Point).VarTimeDoubleScalarBaseMult(j.a, A, j.b).Bytes()...)
+	for k := 0; k < 3; k++ {
+		// a cache keyed on the last variable base would be hit by some goroutines and refilled by others
+		out = append(out, new(ed.Point).VarTimeDoubleScalarBaseMult(j.a, j.p, j.b).Bytes()...)
+		out = append(out, new(ed.Point).ScalarMult(j.s, j.p).Bytes()...)
+		out = append(out, new(ed.Point).VarTimeMultiScalarMult([]*ed.Scalar{j.a, j.b}, []*ed.Point{j.p, A}).Bytes()...)
+		out = append(out, new(ed.Point).MultiScalarMult([]*ed.Scalar{j.b}, []*ed.Point{j.p}).Bytes()...)
+	}
 	out = append(out, new(ed.Point).ScalarMult(j.s, Q).Bytes()...)
 	out = append(out, new(ed.Point).MultiScalarMult(xs, ps).Bytes()...)
 	out = append(out, new(ed.Point).VarTimeMultiScalarMult(xs, ps).Bytes()...)
@@ -107,7 +139,10 @@ func main() {
 	ps := []*ed.Point{A, Q}
 	jobs := make([]job, n)
 	for i := range jobs {
-		jobs[i] = job{scalarFrom(r), scalarFrom(r), scalarFrom(r)}
+		jobs[i] = job{s: scalarFrom(r), a: scalarFrom(r), b: scalarFrom(r), p: Q}
+		if i%2 == 1 {
+			jobs[i].p = pointFrom(r)
+		}
 	}
 	sh := &shared{R: new(ed.Point).Add(A, Q), u: new(field.Element), v: new(field.Element), nc: new(field.Element)}
 	var ub, vb [32]byte
@@ -120,6 +155,10 @@ func main() {
 	ncb := [32]byte{0xee, 0xff, 0xff, 0xff, 0xff, 0xff, 0xff, 0xff, 0xff, 0xff, 0xff, 0xff, 0xff, 0xff, 0xff, 0xff, 0xff, 0xff, 0xff, 0xff,
 		0xff, 0xff, 0xff, 0xff, 0xff, 0xff, 0xff, 0xff, 0xff, 0xff, 0xff, 0x7f}
 	sh.nc.SetBytes(ncb[:]) // 2^255 - 18 = 1 mod p, limbs not reduced
+	sh.s, sh.t = scalarFrom(r), scalarFrom(r)
+	sh.enc = pointFrom(r).Bytes()
+	sh.wide = make([]byte, 64)
+	r.Read(sh.wide)
 	iters := 6
 	if len(os.Args) > 3 {
 		iters, _ = strconv.Atoi(os.Args[3])
